@@ -632,6 +632,9 @@ type localCell struct {
 	addr  string
 	typ   types.Type
 	alloc interface{}
+	// the spill cell of a parameter that the contract declares `frozen` (structural obligation: one store, the spill,
+	// in the function and all its closures): nothing can change it, whoever holds its address
+	frozen bool
 }
 
 // havocAll replaces every heap class by a fresh array. Cells of local variables whose address never leaves the
@@ -639,6 +642,9 @@ type localCell struct {
 func (vc *VC) havocAll(st *State, why string) {
 	// a local cell whose address is an argument of the call that causes the havoc can be written by the callee
 	vc.havocAllKeep(st, func(c localCell) bool {
+		if c.frozen {
+			return true
+		}
 		if vc.passedToCurrentCall != nil && vc.passedToCurrentCall(c) {
 			return false
 		}
